@@ -258,7 +258,9 @@ def handleFull (cfgS inpS alnumS : String) : String :=
     | some out =>
       -- the premises of `C09.C09_format_full_crlf_config` on this input (tally only)
       let c09 := if CrlfFull.crlfOk cfg (fun b => alnum.contains b) inp then "hold" else "no"
-      s!"out={toHex out}\tinfo_c09={c09}"
+      -- the premise of `C03.C03_format_full_checked`: the output is another layout of the input's tokens (tally only)
+      let c03 := layoutStatus cfg (fun b => alnum.contains b) inp out
+      s!"out={toHex out}\tinfo_c09={c09}\tinfo_c03={c03}"
   | _, _, _ => "bad-record"
 
 /-- the `full2` stream: two layouts of the same tokens through the closed model, plus the premises of the layout
